@@ -86,6 +86,16 @@ ASSIGNS()
 ENSURES(RET == 1 || RET == -1)
 ENSURES(record == NULL IMPLIES RET == -1)
 ;
+/* CertificateRequest of TLCP / TLS 1.2: both outputs are slices of the record; cert_types is non-empty */
+int tls_record_get_handshake_certificate_request(const uint8_t *record, const uint8_t **cert_types, size_t *cert_types_len, const uint8_t **ca_names, size_t *ca_names_len)
+REQUIRES(record == NULL || REC_REQ(record))
+REQUIRES(WR_OK(cert_types, sizeof(*cert_types)) && WR_OK(cert_types_len, sizeof(size_t)) && WR_OK(ca_names, sizeof(*ca_names)) && WR_OK(ca_names_len, sizeof(size_t)))
+ASSIGNS(*cert_types, *cert_types_len, *ca_names, *ca_names_len)
+ENSURES(RET == 1 || RET == -1)
+ENSURES(record == NULL IMPLIES RET == -1)
+ENSURES(RET == 1 IMPLIES (*cert_types != NULL && *cert_types_len > 0 && REC_SLICE(*cert_types, *cert_types_len, record)
+	&& (*ca_names_len == 0 ? *ca_names == NULL : REC_SLICE(*ca_names, *ca_names_len, record))))
+;
 #ifdef CONTRACT_TLCP_GETTERS
 GETTER_CONTRACT(tlcp_record_get_handshake_server_key_exchange_pke, 1);
 #endif
